@@ -672,3 +672,397 @@ Proof.
   - intros a i Hin. destruct (only_live_instances_accept s' a i Hr' Hin) as (_ & _ & [E|(E & _)]); [exact E|].
     unfold pending in E. rewrite Hi in E. discriminate.
 Qed.
+
+(* ---------------------------------------------------------------------------------- *)
+(* Every observable history of the model satisfies the executable specification.       *)
+
+Definition Rq (cu : nat) (pn : option nat) (ad : nat -> list nat) (c : conn) (q : oreq) : Prop :=
+  q_addr q = caddr c /\ q_site q = csite c /\ q_open q = negb (finished (cst c)) /\
+  (q_open q = true ->
+     In cu (q_allow q) /\ (forall n, pn = Some n -> In n (q_allow q)) /\
+     (forall i, accepted_by (cst c) = Some i -> In i (q_allow q)) /\
+     (q_must q = true ->
+        In (caddr c) (ad cu) /\ (forall n, pn = Some n -> In (caddr c) (ad n)) /\ lost (cst c) = false)).
+
+Record Rel (s : state) (p : sp) : Prop := {
+  r_ok : sp_ok p = true;
+  r_cur : sp_cur p = cur s;
+  r_addrs : sp_addrs p = addrs_of s (cur s);
+  r_calls : S (sp_calls p) = length (cfgs s);
+  r_pend : sp_pend p = match pending s with Some n => Some (addrs_of s n, fate_of s n) | None => None end;
+  r_reqs : Forall2 (Rq (cur s) (pending s) (addrs_of s)) (conns s) (sp_reqs p);
+  r_base : forall a b, In (a, b) (sp_base p) ->
+             sid s a = b /\ In a (addrs_of s (cur s)) /\ (forall n, pending s = Some n -> In a (addrs_of s n))
+}.
+
+Lemma lookup_In a l b : lookup a l = Some b -> In (a, b) l.
+Proof.
+  induction l as [|[x v] r IH]; simpl; [discriminate|].
+  destruct (Nat.eqb x a) eqn:E; intros H.
+  - apply Nat.eqb_eq in E. injection H as ->. subst x. left. reflexivity.
+  - right. apply IH. exact H.
+Qed.
+
+Lemma Forall2_nth {A B} (R : A -> B -> Prop) l1 l2 k x :
+  Forall2 R l1 l2 -> nth_error l1 k = Some x -> exists y, nth_error l2 k = Some y /\ R x y.
+Proof.
+  intros H. revert k. induction H as [|a b l1 l2 Hab H IH]; intros [|k] Hk; simpl in *; try discriminate.
+  - injection Hk as <-. exists b. auto.
+  - apply IH. exact Hk.
+Qed.
+
+Lemma Forall2_set_nth {A B} (R : A -> B -> Prop) l1 l2 k x y :
+  Forall2 R l1 l2 -> R x y -> Forall2 R (set_nth l1 k x) (set_nth l2 k y).
+Proof.
+  intros H Hxy. revert k. induction H as [|a b l1 l2 Hab H IH]; intros [|k]; simpl; constructor; auto.
+Qed.
+
+Lemma Forall2_set_nth_l {A B} (R : A -> B -> Prop) l1 l2 k x y :
+  Forall2 R l1 l2 -> nth_error l2 k = Some y -> R x y -> Forall2 R (set_nth l1 k x) l2.
+Proof.
+  intros H. revert k. induction H as [|a b l1 l2 Hab H IH]; intros [|k] Hk Hxy; simpl in *; try discriminate.
+  - injection Hk as <-. constructor; auto.
+  - constructor; auto.
+Qed.
+
+Lemma Forall2_len {A B} (R : A -> B -> Prop) l1 l2 : Forall2 R l1 l2 -> length l1 = length l2.
+Proof. intros H. induction H; simpl; congruence. Qed.
+
+Lemma Forall2_impl2 {A B} (R R' : A -> B -> Prop) l1 l2 :
+  (forall x y, R x y -> R' x y) -> Forall2 R l1 l2 -> Forall2 R' l1 l2.
+Proof. intros Hi H. induction H; constructor; auto. Qed.
+
+Lemma Forall2_map_r {A B C} (R : A -> C -> Prop) (f : B -> C) l1 l2 :
+  Forall2 (fun x y => R x (f y)) l1 l2 -> Forall2 R l1 (map f l2).
+Proof. intros H. induction H; simpl; constructor; auto. Qed.
+
+Lemma Forall2_map_l {A B C} (R : C -> B -> Prop) (f : A -> C) l1 l2 :
+  Forall2 (fun x y => R (f x) y) l1 l2 -> Forall2 R (map f l1) l2.
+Proof. intros H. induction H; simpl; constructor; auto. Qed.
+
+Lemma pending_new_ok s n : Inv s -> pending s = Some n -> S n = length (cfgs s) /\ cur s < n.
+Proof.
+  intros Hi Hp. destruct Hi as [_ _ Hph _ _ _]. unfold pending, phase_inv, new_ok in *.
+  destruct (rst s); try discriminate; injection Hp as <-; tauto.
+Qed.
+
+Lemma owner_cases s : owner s = cur s \/ pending s = Some (owner s).
+Proof. unfold owner, pending. destruct (rst s); auto. Qed.
+
+(* an address served by the instance in force and by the one being started is served by the owner *)
+Lemma must_owner s a :
+  In a (addrs_of s (cur s)) -> (forall n, pending s = Some n -> In a (addrs_of s n)) ->
+  In a (addrs_of s (owner s)).
+Proof.
+  intros H1 H2. destruct (owner_cases s) as [E|E]; [rewrite E; exact H1 | apply H2; exact E].
+Qed.
+
+Definition scan (a0 : list nat) (h : list event) : sp := fold_left spec_step (rev h) (sp_init a0).
+
+Lemma scan_cons a0 e h : scan a0 (e :: h) = spec_step (scan a0 h) e.
+Proof. unfold scan. simpl. rewrite fold_left_app. reflexivity. Qed.
+
+(* hidden steps that touch neither connections nor the pending/current instance *)
+Lemma rel_same s s' p :
+  Rel s p -> cur s' = cur s -> cfgs s' = cfgs s -> pending s' = pending s -> conns s' = conns s ->
+  (forall a, sid s' a <> sid s a -> ~ In a (addrs_of s (cur s))) ->
+  Rel s' p.
+Proof.
+  intros [Hok Hc Ha Hcl Hp Hr Hb] E1 E2 E3 E4 Hsid.
+  constructor; unfold addrs_of, fate_of in *; rewrite ?E1, ?E2, ?E3, ?E4; auto.
+  intros a b Hin. destruct (Hb a b Hin) as (X1 & X2 & X3). split; [|auto].
+  destruct (Nat.eq_dec (sid s' a) (sid s a)) as [E|E]; [congruence|]. exfalso. exact (Hsid a E X2).
+Qed.
+
+Lemma rel_step a0 s l s' :
+  reachable s -> Rel s (scan a0 (hist s)) -> step s l = Some s' -> Rel s' (scan a0 (hist s')).
+Proof.
+  intros Hr HR H.
+  assert (Hr' := reachable_step _ _ _ Hr H).
+  assert (Hinv := inv_reachable _ Hr). assert (Hinv' := inv_reachable _ Hr').
+  set (p := scan a0 (hist s)) in *.
+  destruct HR as [Hok Hc Ha Hcl Hp Hrq Hb].
+  destruct l; unfold step in H.
+  - (* LCall *)
+    dmatch H. injection H as <-. simpl hist. rewrite scan_cons. fold p.
+    assert (Epn : pending s = None) by (unfold pending; rewrite E; reflexivity).
+    rewrite Epn in *.
+    unfold spec_step. rewrite Hp, E0.
+    assert (Hcur := i_cur _ Hinv).
+    assert (Hadd : forall i, i < length (cfgs s) ->
+              nth i (cfgs s ++ [(addrs, fate)]) ([], 0) = nth i (cfgs s) ([], 0)).
+    { intros i Hi. apply app_nth1. exact Hi. }
+    constructor; simpl; unfold addrs_of, fate_of, pending; simpl.
+    + exact Hok.
+    + exact Hc.
+    + rewrite Hadd by exact Hcur. exact Ha.
+    + rewrite app_length. simpl. lia.
+    + rewrite nth_app_eq. reflexivity.
+    + apply Forall2_map_r. eapply Forall2_impl2; [|exact Hrq].
+      intros c q (Q1 & Q2 & Q3 & Q4). unfold Rq. simpl. split; [exact Q1|]. split; [exact Q2|]. split; [exact Q3|].
+      intros Ho. destruct (Q4 Ho) as (A1 & A2 & A3 & A4).
+      split; [right; exact A1|]. split; [intros n Hn; injection Hn as <-; left; lia|].
+      split; [intros i Hi; right; apply A3; exact Hi|].
+      intros Hm. apply andb_true_iff in Hm as (Hm1 & Hm2). destruct (A4 Hm1) as (B1 & B2 & B3).
+      split; [rewrite Hadd by exact Hcur; exact B1|]. split; [|exact B3].
+      intros n Hn. injection Hn as <-. rewrite nth_app_eq. simpl. apply mem_In. rewrite <- Q1. exact Hm2.
+    + intros a b Hin. apply filter_In in Hin as (Hin & Hm). simpl in Hm.
+      destruct (Hb a b Hin) as (X1 & X2 & X3). split; [exact X1|].
+      split; [rewrite Hadd by exact Hcur; exact X2|].
+      intros n Hn. injection Hn as <-. rewrite nth_app_eq. simpl. apply mem_In. exact Hm.
+  - (* LLoadFail *)
+    dmatch H. injection H as <-. simpl hist. rewrite scan_cons. fold p.
+    assert (Epn : pending s = Some n) by (unfold pending; rewrite E; reflexivity).
+    rewrite Epn in *. apply Nat.eqb_eq in E0.
+    unfold spec_step. rewrite Hp, E0. simpl.
+    constructor; simpl; unfold pending; simpl; auto.
+    + eapply Forall2_impl2; [|exact Hrq]. intros c q (Q1 & Q2 & Q3 & Q4). unfold Rq.
+      repeat (split; [assumption|]). intros Ho. destruct (Q4 Ho) as (A1 & A2 & A3 & A4).
+      split; [exact A1|]. split; [intros; discriminate|]. split; [exact A3|].
+      intros Hm. destruct (A4 Hm) as (B1 & B2 & B3). split; [exact B1|]. split; [intros; discriminate | exact B3].
+    + intros a b Hin. destruct (Hb a b Hin) as (X1 & X2 & X3). split; [exact X1|]. split; [exact X2|]. intros; discriminate.
+  - (* LLoadOk *)
+    dmatch H. injection H as <-. simpl hist. fold p.
+    apply (rel_same s); try reflexivity; [constructor; assumption | unfold pending; simpl; rewrite E; reflexivity | intros a Hx; simpl in Hx; congruence].
+  - (* LDup *)
+    dmatch H. injection H as <-. simpl hist. fold p.
+    apply (rel_same s); try reflexivity; [constructor; assumption | unfold pending; simpl; rewrite E; reflexivity | intros a Hx; simpl in Hx; congruence].
+  - (* LBind *)
+    dmatch H. injection H as <-. simpl hist. fold p.
+    apply (rel_same s); try reflexivity; [constructor; assumption | unfold pending; simpl; rewrite E; reflexivity |].
+    intros a Hx. simpl in Hx. apply andb_true_iff in E1 as (E1 & _). apply andb_true_iff in E1 as (Enm & _).
+    destruct (Nat.eq_dec a n0) as [->|Hd]; [|rewrite upd_other in Hx by exact Hd; congruence].
+    apply Bool.negb_true_iff in Enm. apply mem_false. exact Enm.
+  - (* LListenFail *)
+    dmatch H. injection H as <-. simpl hist. rewrite scan_cons. fold p.
+    assert (Epn : pending s = Some n) by (unfold pending; rewrite E; reflexivity).
+    rewrite Epn in *. apply andb_true_iff in E1 as (_ & E1). apply Nat.eqb_eq in E1.
+    unfold spec_step. rewrite Hp, E1. simpl.
+    constructor; simpl; unfold pending; simpl; auto.
+    + eapply Forall2_impl2; [|exact Hrq]. intros c q (Q1 & Q2 & Q3 & Q4). unfold Rq.
+      repeat (split; [assumption|]). intros Ho. destruct (Q4 Ho) as (A1 & A2 & A3 & A4).
+      split; [exact A1|]. split; [intros; discriminate|]. split; [exact A3|].
+      intros Hm. destruct (A4 Hm) as (B1 & B2 & B3). split; [exact B1|]. split; [intros; discriminate | exact B3].
+    + intros a b Hin. destruct (Hb a b Hin) as (X1 & X2 & X3). split; [exact X1|]. split; [exact X2|]. intros; discriminate.
+  - (* LAdv *)
+    dmatch H; injection H as <-; simpl hist; fold p;
+    (apply (rel_same s); try reflexivity; [constructor; assumption | unfold pending; simpl; rewrite E; reflexivity | intros a Hx; simpl in Hx; congruence]).
+  - (* LSpawn *)
+    dmatch H. injection H as <-. simpl hist. fold p.
+    apply (rel_same s); try reflexivity; [constructor; assumption | unfold pending; simpl; rewrite E; reflexivity | intros a Hx; simpl in Hx; congruence].
+  - (* LStop *)
+    dmatch H. injection H as <-. rename n0 into a1.
+    assert (Epn : pending s = Some n) by (unfold pending; rewrite E; reflexivity).
+    set (f := rem (cur s) (fdh s a1)) in *.
+    destruct (isnil f) eqn:Enil.
+    + (* the socket at a1 is closed: queued connections there are reset *)
+      simpl hist. fold p. simpl in Hr', Hinv'.
+      constructor; simpl; unfold pending; simpl; try assumption; [rewrite Hp, Epn; reflexivity | | rewrite Epn in Hb; exact Hb].
+      unfold reset_queued. apply Forall2_map_l. eapply Forall2_impl2; [|exact Hrq].
+      intros c q HQ. rewrite Epn in HQ. destruct HQ as (Q1 & Q2 & Q3 & Q4).
+      destruct (cst c) eqn:Ec; try (unfold Rq; rewrite Ec; auto; fail).
+      destruct (Nat.eqb (caddr c) a1) eqn:Ea; [|unfold Rq; rewrite Ec; auto].
+      apply Nat.eqb_eq in Ea. unfold Rq. simpl. split; [exact Q1|]. split; [exact Q2|]. split; [exact Q3|].
+      intros Ho. destruct (Q4 Ho) as (A1 & A2 & A3 & A4).
+      split; [exact A1|]. split; [exact A2|]. split; [intros; discriminate|].
+      intros Hm. exfalso. destruct (A4 Hm) as (B1 & B2 & B3).
+      (* the new instance holds a descriptor at a1 *)
+      destruct Hinv as [_ _ Hph _ _ _]. unfold phase_inv in Hph. rewrite E in Hph.
+      destruct Hph as ((_ & Hlt) & _ & _ & _ & Hnew).
+      destruct (Hnew a1) as (Hfd & _); [rewrite <- Ea; apply B2; reflexivity|].
+      assert (Hin : In n f) by (unfold f; apply rem_In; split; [exact Hfd | lia]).
+      apply isnil_true in Enil. rewrite Enil in Hin. contradiction.
+    + simpl hist. fold p.
+      apply (rel_same s); try reflexivity; [constructor; assumption | unfold pending; simpl; rewrite E; reflexivity | intros a Hx; simpl in Hx; congruence].
+  - (* LReturn *)
+    dmatch H. injection H as <-. simpl hist. rewrite scan_cons. fold p.
+    assert (Epn : pending s = Some n) by (unfold pending; rewrite E; reflexivity).
+    rewrite Epn in *.
+    destruct (pending_new_ok s n Hinv Epn) as (Hn1 & Hn2).
+    assert (Hf : fate_of s n = 0).
+    { destruct Hinv as [_ _ Hph _ _ _]. unfold phase_inv in Hph. rewrite E in Hph. tauto. }
+    unfold spec_step. rewrite Hp, Hf. simpl.
+    assert (Hcalls : sp_calls p = n) by lia.
+    constructor; simpl; unfold pending, addrs_of, fate_of; simpl; auto.
+    + eapply Forall2_impl2; [|exact Hrq]. intros c q (Q1 & Q2 & Q3 & Q4). unfold Rq.
+      repeat (split; [assumption|]). intros Ho. destruct (Q4 Ho) as (A1 & A2 & A3 & A4).
+      split; [apply A2; reflexivity|]. split; [intros; discriminate|]. split; [exact A3|].
+      intros Hm. destruct (A4 Hm) as (B1 & B2 & B3). split; [apply B2; reflexivity|]. split; [intros; discriminate | exact B3].
+    + intros a b Hin. destruct (Hb a b Hin) as (X1 & X2 & X3). split; [exact X1|]. split; [apply X3; reflexivity|]. intros; discriminate.
+  - (* LNew *)
+    injection H as <-. simpl hist. rewrite scan_cons. fold p.
+    assert (Hlen : length (sp_reqs p) = length (conns s)) by (symmetry; eapply Forall2_len; exact Hrq).
+    unfold spec_step. rewrite Hlen, Nat.eqb_refl.
+    constructor; simpl; unfold pending; simpl; try assumption.
+    apply Forall2_app; [exact Hrq|]. constructor; [|constructor].
+    unfold Rq. simpl. repeat (split; [reflexivity|]). intros _.
+    unfold pend_has. rewrite Hp, Hc.
+    destruct (pending s) as [n|] eqn:Epn; pose proof Epn as Epn'; unfold pending in Epn'; rewrite Epn'.
+    + destruct (pending_new_ok s n Hinv Epn) as (Hn1 & Hn2). assert (Hcalls : sp_calls p = n) by lia.
+      rewrite Hcalls. split; [right; left; reflexivity|]. split; [intros n' Hn'; injection Hn' as <-; left; reflexivity|].
+      split; [intros; discriminate|]. intros Hm. apply andb_true_iff in Hm as (M1 & M2).
+      rewrite Ha in M1. split; [apply mem_In; exact M1|]. split; [|reflexivity].
+      intros n' Hn'. injection Hn' as <-. apply mem_In. exact M2.
+    + split; [left; reflexivity|]. split; [intros; discriminate|]. split; [intros; discriminate|].
+      intros Hm. apply andb_true_iff in Hm as (M1 & _). rewrite Ha in M1.
+      split; [apply mem_In; exact M1|]. split; [intros; discriminate | reflexivity].
+  - (* LConnect *)
+    dmatch H. injection H as <-. simpl hist. fold p.
+    destruct (Forall2_nth _ _ _ _ _ Hrq E) as (q & Hq & Q1 & Q2 & Q3 & Q4).
+    constructor; simpl; unfold pending; simpl; try assumption.
+    eapply Forall2_set_nth_l; [exact Hrq | exact Hq |].
+    unfold Rq. simpl. rewrite E0 in Q3, Q4. split; [exact Q1|]. split; [exact Q2|].
+    destruct (isnil (fdh s (caddr c))) eqn:En; simpl; (split; [exact Q3|]); intros Ho;
+      destruct (Q4 Ho) as (A1 & A2 & A3 & A4); (split; [exact A1|]); (split; [exact A2|]); (split; [intros; discriminate|]);
+      intros Hm; destruct (A4 Hm) as (B1 & B2 & B3); (split; [exact B1|]); (split; [exact B2|]); [|reflexivity].
+    exfalso. apply isnil_true in En. exact (socket_never_closed s _ Hr (must_owner s _ B1 B2) En).
+  - (* LAccept *)
+    dmatch H. injection H as <-. simpl hist. fold p.
+    destruct (Forall2_nth _ _ _ _ _ Hrq E) as (q & Hq & Q1 & Q2 & Q3 & Q4).
+    constructor; simpl; unfold pending; simpl; try assumption.
+    eapply Forall2_set_nth_l; [exact Hrq | exact Hq |].
+    unfold Rq. simpl. rewrite E0 in Q3, Q4. split; [exact Q1|]. split; [exact Q2|]. split; [exact Q3|].
+    intros Ho. destruct (Q4 Ho) as (A1 & A2 & A3 & A4). split; [exact A1|]. split; [exact A2|].
+    split; [|intros Hm; destruct (A4 Hm) as (B1 & B2 & B3); auto].
+    intros j Hj. injection Hj as <-. apply mem_In in E1.
+    destruct (only_live_instances_accept s _ _ Hr E1) as (_ & _ & [->|(Hpn & _)]); [exact A1 | apply A2; exact Hpn].
+  - (* LAnswer *)
+    dmatch H. injection H as <-. simpl hist. fold p.
+    destruct (Forall2_nth _ _ _ _ _ Hrq E) as (q & Hq & Q1 & Q2 & Q3 & Q4).
+    constructor; simpl; unfold pending; simpl; try assumption.
+    eapply Forall2_set_nth_l; [exact Hrq | exact Hq |].
+    unfold Rq. simpl. rewrite E0 in Q3, Q4. split; [exact Q1|]. split; [exact Q2|]. split; [exact Q3|].
+    intros Ho. destruct (Q4 Ho) as (A1 & A2 & A3 & A4). split; [exact A1|]. split; [exact A2|].
+    split; [exact A3 | intros Hm; destruct (A4 Hm) as (B1 & B2 & B3); auto].
+  - (* LRecv *)
+    destruct (nth_error (conns s) k) as [c|] eqn:E; [|discriminate].
+    destruct (Forall2_nth _ _ _ _ _ Hrq E) as (q & Hq & Q1 & Q2 & Q3 & Q4).
+    assert (Hclose : forall x r good, finished x = true -> good = true ->
+              Rel (with_hist (with_conns s (set_nth (conns s) k (set_st c x))) (EEnd k r))
+                  {| sp_ok := sp_ok p && good; sp_cur := sp_cur p; sp_addrs := sp_addrs p; sp_calls := sp_calls p;
+                     sp_pend := sp_pend p;
+                     sp_reqs := set_nth (sp_reqs p) k
+                                  {| q_addr := q_addr q; q_site := q_site q; q_open := false;
+                                     q_allow := q_allow q; q_must := q_must q |};
+                     sp_base := sp_base p |}).
+    { intros x r good Hfin ->. constructor; simpl; unfold pending; simpl; try assumption.
+      - rewrite Hok. reflexivity.
+      - apply Forall2_set_nth; [exact Hrq|]. unfold Rq. simpl. rewrite Hfin. simpl.
+        repeat (split; [assumption|]). split; [reflexivity|]. intros; discriminate. }
+    destruct (cst c) eqn:Ec; try discriminate.
+    + (* timeout of a queued connection: only when nobody accepts there *)
+      destruct (isnil (acc s (caddr c))) eqn:En; [|discriminate]. injection H as <-.
+      simpl hist. rewrite scan_cons. fold p. unfold spec_step. rewrite Hq.
+      apply Hclose; [reflexivity|]. try rewrite Ec in Q3; try rewrite Ec in Q4. simpl in Q3. rewrite Q3. simpl.
+      destruct (q_must q) eqn:Em; [|reflexivity]. exfalso.
+      destruct (Q4 Q3) as (_ & _ & _ & A4). destruct (A4 eq_refl) as (B1 & B2 & _).
+      destruct (owner_serves s _ Hr (must_owner s _ B1 B2)) as (_ & Hin).
+      apply isnil_true in En. rewrite En in Hin. contradiction.
+    + injection H as <-. simpl hist. rewrite scan_cons. fold p. unfold spec_step. rewrite Hq.
+      apply Hclose; [reflexivity|]. try rewrite Ec in Q3; try rewrite Ec in Q4. simpl in Q3. rewrite Q3. simpl.
+      destruct (q_must q) eqn:Em; [|reflexivity]. exfalso.
+      destruct (Q4 Q3) as (_ & _ & _ & A4). destruct (A4 eq_refl) as (_ & _ & B3). discriminate.
+    + injection H as <-. simpl hist. rewrite scan_cons. fold p. unfold spec_step. rewrite Hq.
+      apply Hclose; [reflexivity|]. try rewrite Ec in Q3; try rewrite Ec in Q4. simpl in Q3. rewrite Q3. simpl.
+      destruct (q_must q) eqn:Em; [|reflexivity]. exfalso.
+      destruct (Q4 Q3) as (_ & _ & _ & A4). destruct (A4 eq_refl) as (_ & _ & B3). discriminate.
+    + injection H as <-. simpl hist. rewrite scan_cons. fold p. unfold spec_step. rewrite Hq.
+      apply Hclose; [reflexivity|]. try rewrite Ec in Q3; try rewrite Ec in Q4. simpl in Q3. rewrite Q3. simpl.
+      rewrite Q2, Nat.eqb_refl. simpl.
+      destruct (Q4 Q3) as (_ & _ & A3 & _). apply mem_In. apply A3. reflexivity.
+  - (* LObs *)
+    injection H as <-. simpl hist. rewrite scan_cons. fold p. unfold spec_step.
+    destruct (mem a (sp_addrs p) && pend_has p a) eqn:Esrv.
+    + apply andb_true_iff in Esrv as (S1 & S2). rewrite Ha in S1. apply mem_In in S1.
+      assert (S2' : forall n, pending s = Some n -> In a (addrs_of s n)).
+      { intros n Hn. unfold pend_has in S2. rewrite Hp, Hn in S2. apply mem_In. exact S2. }
+      assert (Hopen : negb (isnil (fdh s a)) = true).
+      { apply Bool.negb_true_iff. apply isnil_false. apply (socket_never_closed s a Hr). apply must_owner; assumption. }
+      rewrite Hopen.
+      destruct (lookup a (sp_base p)) as [b|] eqn:El.
+      * apply lookup_In in El. destruct (Hb a b El) as (X1 & _). rewrite X1, Nat.eqb_refl.
+        constructor; simpl; unfold pending; simpl; try assumption. rewrite Hok. reflexivity.
+      * constructor; simpl; unfold pending; simpl; try assumption; [rewrite Hok; reflexivity|].
+        intros a' b' [Heq|Hin]; [injection Heq as <- <-; auto | apply Hb; exact Hin].
+    + constructor; simpl; unfold pending; simpl; assumption.
+Qed.
+
+Lemma rel_init a0 blocked : Rel (init a0 blocked) (scan a0 (hist (init a0 blocked))).
+Proof.
+  unfold scan. simpl. constructor; simpl; unfold pending, addrs_of; simpl; auto.
+  intros a b [].
+Qed.
+
+Lemma rel_run a0 ls : forall s s',
+  reachable s -> Rel s (scan a0 (hist s)) -> run s ls = Some s' -> Rel s' (scan a0 (hist s')).
+Proof.
+  induction ls as [|l r IH]; simpl; intros s s' Hr HR H.
+  - injection H as <-. exact HR.
+  - destruct (step s l) as [s1|] eqn:E; [|discriminate].
+    apply (IH s1 s'); [eapply reachable_step; eauto | eapply rel_step; eauto | exact H].
+Qed.
+
+Theorem model_traces_satisfy_spec a0 blocked ls s :
+  nodupb a0 = true -> run (init a0 blocked) ls = Some s -> spec_trace a0 (rev (hist s)) = true.
+Proof.
+  intros Hnd H.
+  assert (Hr0 : reachable (init a0 blocked)) by (exists a0, blocked, []; auto).
+  destruct (rel_run a0 ls _ _ Hr0 (rel_init a0 blocked) H) as [Hok _ _ _ _ _ _].
+  exact Hok.
+Qed.
+
+(* ---------------------------------------------------------------------------------- *)
+(* [accepts]: the judge's acceptance check really exhibits a run of the model. *)
+
+Lemma run_app l1 : forall s l2,
+  run s (l1 ++ l2) = match run s l1 with Some s1 => run s1 l2 | None => None end.
+Proof.
+  induction l1 as [|x l1 IH]; simpl; intros s l2; [reflexivity|].
+  destruct (step s x); [apply IH | reflexivity].
+Qed.
+
+Lemma replay_run ans : forall evs s s', replay ans s evs = Some s' -> exists ls, run s ls = Some s'.
+Proof.
+  induction evs as [|e r IH]; simpl; intros s s' H.
+  - injection H as <-. exists []. reflexivity.
+  - destruct (run s (labels_for ans match e with ECall _ _ => next_ret r | _ => None end s e)) as [s1|] eqn:E; [|discriminate].
+    destruct (IH s1 s' H) as (ls & Hls).
+    exists (labels_for ans match e with ECall _ _ => next_ret r | _ => None end s e ++ ls).
+    rewrite run_app, E. exact Hls.
+Qed.
+
+Lemma list_beq_event_eq l1 l2 : list_beq event_eqb l1 l2 = true -> l1 = l2.
+Proof.
+  revert l2; induction l1 as [|x l1 IH]; intros [|y l2]; simpl; intros H; try discriminate; [reflexivity|].
+  apply andb_true_iff in H as (H1 & H2). f_equal; [|apply IH; exact H2].
+  clear IH H2.
+  assert (Hnl : forall a b, natlist_eqb a b = true -> a = b).
+  { unfold natlist_eqb. induction a as [|u a IHa]; intros [|v b]; simpl; intros Hx; try discriminate; [reflexivity|].
+    apply andb_true_iff in Hx as (X1 & X2). apply Nat.eqb_eq in X1. f_equal; [exact X1 | apply IHa; exact X2]. }
+  assert (Hb : forall a b, bool_eqb a b = true -> a = b) by (intros [|] [|]; simpl; congruence).
+  destruct x as [a1 f1|r1|k1 a1 s1|k1 [[[m1 t1] c1]|]|a1 o1 d1],
+           y as [a2 f2|r2|k2 a2 s2|k2 [[[m2 t2] c2]|]|a2 o2 d2]; simpl in H1; try discriminate;
+  repeat match goal with
+    | H : _ && _ = true |- _ => apply andb_true_iff in H as (? & ?)
+    | H : Nat.eqb _ _ = true |- _ => apply Nat.eqb_eq in H; subst
+    | H : natlist_eqb _ _ = true |- _ => apply Hnl in H; subst
+    | H : bool_eqb _ _ = true |- _ => apply Hb in H; subst
+  end; reflexivity.
+Qed.
+
+Theorem accepts_sound a0 blocked evs :
+  accepts a0 blocked evs = true ->
+  nodupb a0 = true /\ exists ls s, run (init a0 blocked) ls = Some s /\ rev (hist s) = evs.
+Proof.
+  unfold accepts. intros H. apply andb_true_iff in H as (Hnd & H). split; [exact Hnd|].
+  destruct (replay (ans_of evs) (init a0 blocked) evs) as [s|] eqn:E; [|discriminate].
+  destruct (replay_run _ _ _ _ E) as (ls & Hls). exists ls, s. split; [exact Hls|].
+  apply list_beq_event_eq. exact H.
+Qed.
+
+Theorem accepted_history_satisfies_spec a0 blocked evs :
+  accepts a0 blocked evs = true -> spec_trace a0 evs = true.
+Proof.
+  intros H. destruct (accepts_sound _ _ _ H) as (Hnd & ls & s & Hr & <-).
+  eapply model_traces_satisfy_spec; eauto.
+Qed.
